@@ -402,6 +402,7 @@ fn gen_inputs(family: &str, rng: &mut Rng, n: usize, seeds: &[String]) -> Vec<St
                     crlf: rng.chance(1, 4),
                     tabs: rng.chance(1, 3),
                     tight: rng.chance(1, 3),
+                    line_comments_only: false,
                 };
                 v.push(render_layout(&p, rng, o));
             }
@@ -416,7 +417,7 @@ fn gen_inputs(family: &str, rng: &mut Rng, n: usize, seeds: &[String]) -> Vec<St
             for _ in 0..n {
                 let budget = *rng.pick(&[5, 15, 15, 40]);
                 let p = gen_program(rng, budget);
-                let o = LayoutOpts { comments: true, directives: false, blank_lines: rng.chance(1, 3), crlf: false, tabs: false, tight: rng.chance(1, 4) };
+                let o = LayoutOpts { comments: true, directives: false, blank_lines: rng.chance(1, 3), crlf: false, tabs: false, tight: rng.chance(1, 4), line_comments_only: false };
                 v.push(render_layout(&p, rng, o));
             }
         }
@@ -437,7 +438,7 @@ fn gen_inputs(family: &str, rng: &mut Rng, n: usize, seeds: &[String]) -> Vec<St
                 let budget = *rng.pick(&[5, 15, 40, 100]);
                 let p = gen_program(rng, budget);
                 let p = with_regions(&p, rng);
-                let o = LayoutOpts { comments: rng.chance(1, 3), directives: false, blank_lines: rng.chance(1, 2), crlf: rng.chance(1, 4), tabs: rng.chance(1, 3), tight: rng.chance(1, 4) };
+                let o = LayoutOpts { comments: rng.chance(1, 3), directives: false, blank_lines: rng.chance(1, 2), crlf: rng.chance(1, 4), tabs: rng.chance(1, 3), tight: rng.chance(1, 4), line_comments_only: false };
                 let mut s = render_layout(&p, rng, o);
                 if rng.chance(1, 25) {
                     s = s.replace("\r\n", "\n").replace('\n', "\r");
@@ -693,7 +694,7 @@ fn cmd_emit(a: &Args) {
                     let b = render_relayout(&p, shared, &mut r, with_comments);
                     cases.push(Case { stream: stream.clone(), family: fam.clone(), input: a, cfg, cursors: vec![], oracles: oracle_list.clone(), well_formed: true, w2: 80, input2: Some(b), marks: vec![], texts: vec![] });
                 } else {
-                    let o = LayoutOpts { comments: false, directives: false, blank_lines: r.chance(1, 2), crlf: false, tabs: r.chance(1, 3), tight: r.chance(1, 3) };
+                    let o = LayoutOpts { comments: r.chance(1, 3), directives: false, blank_lines: r.chance(1, 2), crlf: false, tabs: r.chance(1, 3), tight: r.chance(1, 3), line_comments_only: true };
                     let input = if r.chance(1, 3) { render_plain(&p) } else { render_layout(&p, &mut r, o) };
                     let marks: Vec<Mark> = p.toks.iter().map(|t| t.mark).collect();
                     let texts: Vec<String> = p.toks.iter().map(|t| t.text.clone()).collect();
@@ -763,7 +764,11 @@ fn cmd_emit(a: &Args) {
                     bump(&mut stats, k, *v);
                 }
                 for f in &o.oracle_failures {
-                    failures.push(format!("{{\"kind\":\"oracle\",\"what\":{},\"cfg\":{},\"input_hex\":{},\"cursors\":{:?},\"family\":{}}}", json_str(f), json_str(&c.cfg.to_proto()), json_str(&proto::hex(c.input.as_bytes())), c.cursors, json_str(&c.family)));
+                    let second = match &c.input2 {
+                        Some(b) => format!(",\"input2_hex\":{}", json_str(&proto::hex(b.as_bytes()))),
+                        None => String::new(),
+                    };
+                    failures.push(format!("{{\"kind\":\"oracle\",\"what\":{},\"cfg\":{},\"input_hex\":{},\"cursors\":{:?},\"family\":{}{}}}", json_str(f), json_str(&c.cfg.to_proto()), json_str(&proto::hex(c.input.as_bytes())), c.cursors, json_str(&c.family), second));
                 }
                 if samples.len() < 5 && nontrivial(&c.input) && c.input.len() < 300 {
                     samples.push(format!("{{\"family\":{},\"cfg\":{},\"input\":{}}}", json_str(&c.family), json_str(&c.cfg.to_proto()), json_str(&c.input)));
